@@ -184,7 +184,7 @@ Fixpoint run_ops (ver : Z) (d : dsrc) (st : hstate) (ops : list hop) : list Z :=
 
 (* the base Number of a history.  kind 0: test number (fixed, rep), finite type in v3 when rep = [];
    kind 1: generator-backed (raw stream), opaque in v3.  v1/v2 Numbers are always plain. *)
-Definition base_of (ver kind : Z) (raw rep : list Z) (e : Z) : val * dsrc :=
+Definition hist_base (ver kind : Z) (raw rep : list Z) (e : Z) : val * dsrc :=
   let d := if kind =? 0 then mkD raw rep else valid_prefix raw rep in
   let empty := match d_fixed d, d_rep d with [], [] => true | _, _ => false end in
   let lead0 := match d_fixed d ++ d_rep d with 0 :: _ => true | _ => false end in
@@ -195,7 +195,7 @@ Definition base_of (ver kind : Z) (raw rep : list Z) (e : Z) : val * dsrc :=
        else (FN SMemo e, d).
 
 Definition run_history (ver kind : Z) (raw rep : list Z) (e : Z) (ops : list hop) : list Z :=
-  let '(v, d) := base_of ver kind raw rep e in
+  let '(v, d) := hist_base ver kind raw rep e in
   run_ops ver d (mkH [v] []) ops.
 
 (* ---- C13: NewNumberForTesting / NewFiniteNumber argument check, NewNumber(g) ---- *)
